@@ -136,8 +136,8 @@ Plan gen_corrupt(uint64_t seed, const string &prop) {
     else { o.kind = O_COMPACT_RANGE; o.a = (int)r.below(3); }
     p.ops.push_back(o);
   }
-  p.seti("max_mut", 450);
-  p.seti("dense", 0); // 1 = all alterations at every enumerated position (thorough tier)
+  p.seti("max_mut", g_thorough ? 6000 : 450);
+  p.seti("dense", g_thorough ? 1 : 0); // 1 = all alterations at every enumerated position (thorough tier)
   return p;
 }
 
@@ -239,6 +239,7 @@ void exec_corrupt(const Plan &p, RunOut *out) {
     count("mutations_enumerated", muts.size());
     for (auto &m : muts) {
       if (failed()) break;
+      sim::budget_reset();
       simfs::remove_tree(mut);
       simfs::copy_tree(base, mut);
       string data;
